@@ -337,6 +337,22 @@ def check(repo: Repo, run: Run) -> None:
         ok = ok or f"{z}.timetuple().tm_yday - 1" in s
     run.shape("C11.A2", "TimestampType.getDayOfYear|convention", ok, "getDayOfYear = ordinal of the zoned date minus ordinal of 1 January of the zoned year (0-based)", ct.loc(doy))
     run.ob("C11.A1", "TimestampType.getDayOfYear|zoned", bool(zoned), "getDayOfYear works on self.astimezone(tz_parse(tz_name))", ct.loc(doy))
+    # A1 (all accessors): no calendar field of the *stored* instant is read - every field of the result must come
+    # from the instant converted to the requested zone (near midnight / New Year the two differ)
+    CAL_FIELDS = {"year", "month", "day", "hour", "minute", "second", "microsecond"}
+    CAL_METHODS = {"toordinal", "timetuple", "utctimetuple", "isoweekday", "weekday", "isocalendar", "date", "time", "timetz"}
+    for name, fn in sorted(ts.items()):
+        if not name.startswith("get") or len(fn.args.args) < 2:
+            continue
+        direct = []
+        for n in ast.walk(fn):
+            if isinstance(n, ast.Attribute) and isinstance(n.value, ast.Name) and n.value.id == "self" and isinstance(n.ctx, ast.Load):
+                if n.attr in CAL_FIELDS or n.attr in CAL_METHODS:
+                    direct.append(n.attr)
+        run.ob("C11.A1", f"TimestampType.{name}|no-unzoned-field", not direct,
+               f"{name} " + ("takes every calendar field from the zoned instant" if not direct else
+                             f"reads `self.{direct[0]}` of the stored instant: when the requested zone (or the timestamp's own offset) puts the instant on another day / year, the result mixes two zones"),
+               ct.loc(fn))
     # tz_parse / tz_name_lookup wiring
     tzp = ts.get("tz_parse")
     s = ast.unparse(tzp) if tzp else ""
